@@ -15,7 +15,7 @@ RULE = (
     "from_yaml of the result must give a hierarchy equal to the original under an own canonical dump (types, payload fields, ordered successors, back "
     "edges, value tables, assignments, nesting, kind, header, exiting, parent; block insertion order is not compared); plus arbitrary flat block graphs as a caller may build them (duplicate targets, self loops, several heads, caller-declared back edges); to_dict of the re-read graph equals "
     "the first dictionary and to_yaml of the re-read graph equals the first text (write-read-write-read); the region-by-region walk of C01 still succeeds on "
-    "the re-read graph (successor order is checked semantically). Non-trivial = the graph contains a region, a branching synthetic block and a two-way "
+    "the re-read graph (successor order is checked semantically). Further legs: writing must not change the graph and writing twice gives the same result; the re-read graph is restructured further, written and read again; deeply nested graphs (to 150 levels) and many-way loops with every library call under the default recursion limit. Non-trivial = the graph contains a region, a branching synthetic block and a two-way "
     "block whose successors are not in sorted order. Distinct = hash of (input, payload)."
 )
 ASSUME = ["AST-payload graphs are outside the domain (the block-type registry has no AST entry)", "block names are those the front ends and the name generator produce"]
